@@ -64,7 +64,9 @@ PROPS = {
     "C07": {
         "mc": L0_QUICK + L0_THOROUGH + [
             algo("BitOps.tla", "BitOps_q.cfg"), algo("BitOps.tla", "BitOps_cal1.cfg", expect="violation"),
-            algo("BitOps.tla", "BitOps_t.cfg", workers=14, tiers=T)],
+            algo("BitOps.tla", "BitOps_t.cfg", workers=14, tiers=T),
+            algo("ShiftBits.tla", "ShiftBits_q.cfg"), algo("ShiftBits.tla", "ShiftBits_cal1.cfg", expect="violation"),
+            algo("ShiftBits.tla", "ShiftBits_cal2.cfg", expect="violation"), algo("ShiftBits.tla", "ShiftBits_t.cfg", workers=14, tiers=T)],
         "drivers": [drv("bits", "debug"), drv("bits", "release", tiers=T)],
     },
     "C09": {
